@@ -155,6 +155,17 @@ pub fn slice_content(len: usize, salt: u8) -> Vec<u8> {
         // one-byte pushes: interesting values
         return vec![[0x00u8, 0x01, 0x10, 0x11, 0x81, 0x80, 0xff, 0x4f][salt as usize % 8]];
     }
+    if salt >= 100 {
+        // multi-byte pushes whose content is a (non-minimally encoded) small script number or a negative zero: they are
+        // data, not numbers, and no minimal-push rule applies to them
+        let k = (salt - 100) as usize;
+        match len {
+            2 => return [[5u8, 0], [0x10, 0], [1, 0x80], [0, 0x80], [0x81, 0], [0, 0]][k % 6].to_vec(),
+            3 => return [[16u8, 0, 0], [1, 0, 0x80], [0, 0, 0x80]][k % 3].to_vec(),
+            4 => return [[1u8, 0, 0, 0], [0x0f, 0, 0, 0x80]][k % 2].to_vec(),
+            _ => {}
+        }
+    }
     gen::blob(len, salt)
 }
 
@@ -268,6 +279,11 @@ fn alphabet(full: bool) -> Vec<BOp> {
         for s in 2..8u8 {
             a.push(BOp::Slice(1, s));
         }
+        for (l, n) in [(2usize, 6u8), (3, 3), (4, 2)] {
+            for k in 0..n {
+                a.push(BOp::Slice(l, 100 + k));
+            }
+        }
     } else {
         for b in [0x00u8, 0x51, 0x69, 0x87, 0x88, 0x9c, 0xac, 0xae, 0xc1, 0xc2, 0x6a, 0xff] {
             a.push(BOp::Op(b));
@@ -278,7 +294,7 @@ fn alphabet(full: bool) -> Vec<BOp> {
         for n in [0i64, 5, -1, 255] {
             a.push(BOp::ScriptInt(n));
         }
-        for (l, s) in [(0usize, 0u8), (1, 1), (1, 4), (75, 0), (76, 0), (256, 1)] {
+        for (l, s) in [(0usize, 0u8), (1, 1), (1, 4), (2, 100), (3, 101), (75, 0), (76, 0), (256, 1)] {
             a.push(BOp::Slice(l, s));
         }
     }
@@ -391,7 +407,7 @@ pub fn run(r: &Report) {
     let thorough = r.tier.thorough();
     r.set_rule(
         "(i) all builder programs of length <= 2 over the full alphabet (push_opcode for 0x00 and 0x4f..0xff, push_int / push_scriptint \
-         over 45 boundary values, push_slice with 12 boundary lengths x 2 contents + 6 one-byte values, push_verify) and all of length 3 \
+         over 45 boundary values, push_slice with 12 boundary lengths x 2 contents + 6 one-byte values + 11 two..four-byte contents that read as small / negative-zero script numbers, push_verify) and all of length 3 \
          (4 in thorough) over a 31-operation sub-alphabet, against a reference builder model (bytes, instruction list, minimal-push); \
          (ii) read_scriptint on all byte strings of length <= 2 (<= 3 thorough) and an 8-value-per-byte menu at lengths 4..5, push_int \
          round trip for every n in [-70000, 70000] and the boundary set; (iii) every script [b0][b1][payload] for all 65536 (b0,b1) x \
